@@ -31,8 +31,10 @@ TReset ==
   /\ errSeen' = FALSE /\ anyErr' = FALSE
 
 TRegister == Ev("Register") /\ \E t \in Thread : Has(t, "reg") /\ Top(t).s = Line.s /\ Register(t)
-TExec     == Ev("Exec") /\ \E t \in Thread : Has(t, "exec") /\ Top(t).s = Line.s
+TExec     == Ev("Exec") /\ Line.outcome # "planpanic" /\ \E t \in Thread : Has(t, "exec") /\ Top(t).s = Line.s
                                              /\ outcome[Line.s] = Line.outcome /\ Exec(t)
+TPlanPanic == Ev("Exec") /\ Line.outcome = "planpanic" /\ \E t \in Thread : Has(t, "plan") /\ Top(t).s = Line.s
+                                             /\ outcome[Line.s] = "planpanic" /\ Plan(t)
 TFinMark  == Ev("FinMark") /\ \E t \in Thread : Has(t, "fin") /\ Top(t).s = Line.s /\ FinMark(t)
 TCallback == /\ Ev("Callback")
              /\ \/ \E t \in Thread : FinDec(t)
@@ -47,14 +49,14 @@ TQuiesce  == Ev("Quiesce") /\ Quiescent /\ cbCount = 1 /\ Line.calls = 1 /\ UNCH
 
 \* steps the harness cannot observe
 Silent == /\ l <= Len(Trace)
-          /\ \/ \E t \in Thread : Chk(t) \/ Next1(t) \/ (FinDec(t) /\ cbCount' = cbCount)
+          /\ \/ \E t \in Thread : Chk(t) \/ Next1(t) \/ (Plan(t) /\ outcome[Top(t).s] # "planpanic") \/ (FinDec(t) /\ cbCount' = cbCount)
                                    \* a stage completed by executeStage's recover does not pass
                                    \* through the harness' wrapped handler: no FinEnd event
-                                   \/ (FinEnd(t) /\ outcome[Top(t).s] = "panic")
+                                   \/ (FinEnd(t) /\ outcome[Top(t).s] \in {"panic", "planpanic"})
              \/ (MainComplete /\ cbCount' = cbCount)
           /\ UNCHANGED l
 
-TraceNext == TReset \/ TRegister \/ TExec \/ TFinMark \/ TCallback \/ TFinEnd \/ TMainRet \/ TQuiesce \/ Silent
+TraceNext == TReset \/ TRegister \/ TExec \/ TPlanPanic \/ TFinMark \/ TCallback \/ TFinEnd \/ TMainRet \/ TQuiesce \/ Silent
 
 TraceSpec == TraceInit /\ [][TraceNext]_tvars
 
